@@ -151,7 +151,7 @@ def gen_ops(r, comma, nvals, uid):
 
 def cases(ctx):
     r = ctx.rng('layouts')
-    for _ in range(ctx.size(7000, 450000)):
+    for _ in range(ctx.size(7000, 900000)):
         comma = r.random() < .5
         ftxt, vals, flags = gen_layout(r, comma)
         uid = [100]
